@@ -603,7 +603,7 @@ Proof.
   assert (Hc' : String.length c <= 1 /\ any_char is_ws c = false).
   { unfold c. destruct cf; simpl in Hc.
     - apply token_ok_spec in Hc. tauto.
-    - split; [simpl; lia | reflexivity]. }
+    - split; [repeat constructor | reflexivity]. }
   destruct Hc' as [Hcl Wc].
   rewrite <- (app_empty_r (pqr_string cf a)), pqr_string_laid. fold c.
   destruct (layout_slices _ _ " " _ _ " " _ _ _ _ _ _ _ _ ""
@@ -750,4 +750,534 @@ Lemma type_field_pad a :
   any_char is_ws (a_type a) = false /\ is_empty (a_type a) = false.
 Proof.
   intros H. destruct (type_ok_cases a H) as [E|E]; rewrite E; repeat split; reflexivity.
+Qed.
+
+Lemma ws_line_fields cf a :
+  String.length (a_ins a) <= 1 ->
+  ws_line cf a =
+    take 6 (ljust 6 (a_type a)) ++ " "
+    ++ (take 5 (rjust 5 (Z_to_string (a_serial a))) ++ " " ++ name_field (a_name a)) ++ " "
+    ++ (res_field (a_res_name a) ++ " " ++ take 1 (ljust 1 (if cf then a_chain a else ""))
+        ++ take 4 (rjust 4 (Z_to_string (a_res_seq a))) ++ ins_field (a_ins a)
+        ++ coord_field (a_x a)) ++ " "
+    ++ coord_field (a_y a) ++ " "
+    ++ (coord_field (a_z a) ++ charge_field (a_charge a) ++ radius_field (a_radius a) ++ nl).
+Proof.
+  intros Hi. unfold ws_line. rewrite pqr_string_laid.
+  apply (layout_respace _ _ " " _ _ " " _ _ _ _ _ _ _ _ nl
+              (length_take_ljust 6 (a_type a))
+              (length_take_rjust 5 (Z_to_string (a_serial a))) eq_refl
+              (length_name_field (a_name a)) (length_res_field (a_res_name a)) eq_refl
+              (length_take_ljust 1 (if cf then a_chain a else ""))
+              (length_take_rjust 4 (Z_to_string (a_res_seq a)))
+              (length_ins_field (a_ins a) Hi)
+              (length_coord_field (a_x a)) (length_coord_field (a_y a))
+              (length_coord_field (a_z a))
+              (length_charge_field (a_charge a)) (length_radius_field (a_radius a))).
+Qed.
+
+Lemma rjust_field_pad w s : String.length s <= w ->
+  take w (rjust w s) = repeat_char sp (w - String.length s) ++ s.
+Proof. apply take_rjust_fit. Qed.
+
+Theorem ws_roundtrip cf a :
+  ws_ok cf a = true -> from_pqr_line (ws_line cf a) = PAtom (expected_ws cf a).
+Proof.
+  unfold ws_ok. rewrite !andb_true_iff.
+  intros [[[[[[[[[[[Hty Hs] Hn] Hr] Hc] Hq] Hi] Hx] Hy] Hz] Hch] Hrd].
+  apply token_ok_spec in Hn as (Hn1 & Hn & Wn).
+  apply token_ok_spec in Hr as (Hr1 & Hr & Wr).
+  apply is_empty_true in Hi.
+  apply fits_le in Hs, Hq, Hch, Hrd.
+  rewrite ws_line_fields by (rewrite Hi; repeat constructor).
+  destruct (type_field_pad a Hty) as (ET & WT & NT). rewrite ET.
+  rewrite (rjust_field_pad 5 _ Hs), (rjust_field_pad 4 _ Hq).
+  destruct (name_field_fit _ Hn) as (kN & jN & EN). rewrite EN.
+  destruct (res_field_fit _ Hr) as (kR & jR & ER). rewrite ER.
+  rewrite Hi. change (ins_field "") with "    ".
+  rewrite (coord_field_fit _ Hx), (coord_field_fit _ Hy), (coord_field_fit _ Hz).
+  unfold charge_field, radius_field.
+  rewrite (rjust_field_pad 8 (opt_fmt4 (a_charge a))) by (clear - Hch; lia).
+  rewrite (rjust_field_pad 7 (opt_fmt4 (a_radius a))) by (clear - Hrd; lia).
+  apply fits_le in Hx, Hy, Hz.
+  set (T := a_type a) in *. set (S := Z_to_string (a_serial a)) in *.
+  set (Q := Z_to_string (a_res_seq a)) in *.
+  set (X := fmt_fixed 3 (a_x a)) in *. set (Y := fmt_fixed 3 (a_y a)) in *.
+  set (Zc := fmt_fixed 3 (a_z a)) in *.
+  set (C := opt_fmt4 (a_charge a)) in *. set (Rd := opt_fmt4 (a_radius a)) in *.
+  assert (WS : any_char is_ws S = false) by apply Z_to_string_no_ws.
+  assert (NS : is_empty S = false) by apply Z_to_string_nonempty.
+  assert (WQ : any_char is_ws Q = false) by apply Z_to_string_no_ws.
+  assert (NQ : is_empty Q = false) by apply Z_to_string_nonempty.
+  assert (WX : any_char is_ws X = false) by apply fmt_fixed_no_ws.
+  assert (NX : is_empty X = false) by apply fmt_fixed_nonempty.
+  assert (WY : any_char is_ws Y = false) by apply fmt_fixed_no_ws.
+  assert (NY : is_empty Y = false) by apply fmt_fixed_nonempty.
+  assert (WZ : any_char is_ws Zc = false) by apply fmt_fixed_no_ws.
+  assert (NZ : is_empty Zc = false) by apply fmt_fixed_nonempty.
+  assert (WC : any_char is_ws C = false) by apply opt_fmt4_no_ws.
+  assert (NC : is_empty C = false) by apply opt_fmt4_nonempty.
+  assert (WRd : any_char is_ws Rd = false) by apply opt_fmt4_no_ws.
+  assert (NRd : is_empty Rd = false) by apply opt_fmt4_nonempty.
+  assert (Nn : is_empty (a_name a) = false) by now apply is_empty_length.
+  assert (Nr : is_empty (a_res_name a) = false) by now apply is_empty_length.
+  assert (PS : py_int S = Some (a_serial a)) by apply py_int_Z_to_string.
+  assert (PQ : py_int Q = Some (a_res_seq a)) by apply py_int_Z_to_string.
+  assert (PX : plain_decimal X = Some (pf_of 3 (a_x a))) by apply plain_decimal_fmt.
+  assert (PY : plain_decimal Y = Some (pf_of 3 (a_y a))) by apply plain_decimal_fmt.
+  assert (PZ : plain_decimal Zc = Some (pf_of 3 (a_z a))) by apply plain_decimal_fmt.
+  assert (PC : plain_decimal C = Some (pf_of_opt 4 (a_charge a))) by apply opt_fmt4_parse.
+  assert (PR : plain_decimal Rd = Some (pf_of_opt 4 (a_radius a))) by apply opt_fmt4_parse.
+  assert (TY : T = "ATOM" \/ T = "HETATM") by now apply type_ok_cases.
+  pose proof (blanks_ws) as BW.
+  (* the printed chain column *)
+  destruct (cf && negb (is_empty (a_chain a))) eqn:ECH.
+  - (* chain printed and non-empty *)
+    apply andb_true_iff in ECH as [Ecf Ech]. subst cf. simpl in Hc.
+    rewrite !andb_true_iff in Hc. destruct Hc as [[Hc Hd] H3].
+    apply token_ok_spec in Hc as (_ & Hc & Wc).
+    apply negb_true_iff in Ech, Hd. rewrite Ech in H3. simpl in H3. apply fits_le in H3. fold Q in H3.
+    destruct (a_chain a) as [|ch [|? ?]] eqn:EC; [discriminate Ech| |simpl in Hc; clear - Hc; lia].
+    simpl in Hd. apply orb_false_iff in Hd as [Hd _].
+    change (take 1 (ljust 1 (String ch ""))) with (String ch "").
+    unfold expected_ws. simpl andb. rewrite EC. cbn [is_empty negb].
+    eapply from_tokens_chain; try eassumption; [| now apply py_int_nondigit1].
+    match goal with |- tokens ?l = _ =>
+      assert (E : l = render [Word T; Gap (repeat_char sp (6 - String.length T)); Gap " ";
+                              Gap (repeat_char sp (5 - String.length S)); Word S; Gap " ";
+                              Gap (repeat_char sp kN); Word (a_name a); Gap (repeat_char sp jN); Gap " ";
+                              Gap (repeat_char sp kR); Word (a_res_name a); Gap (repeat_char sp jR); Gap " ";
+                              Word (String ch ""); Gap (repeat_char sp (4 - String.length Q)); Word Q; Gap "    ";
+                              Gap (repeat_char sp (8 - String.length X)); Word X; Gap " ";
+                              Gap (repeat_char sp (8 - String.length Y)); Word Y; Gap " ";
+                              Gap (repeat_char sp (8 - String.length Zc)); Word Zc;
+                              Gap (repeat_char sp (8 - String.length C)); Word C;
+                              Gap (repeat_char sp (7 - String.length Rd)); Word Rd; Gap nl])
+    end.
+    { cbn [render]. rewrite !app_assoc_s, !app_empty_r. reflexivity. }
+    rewrite E, tokens_render; [reflexivity|].
+    cbn [wf gap_next]. rewrite !BW.
+    repeat split; auto using blanks_nonempty.
+    all: try (right; left; reflexivity).
+    all: try (left; apply blanks_nonempty; clear - H3 Hch Hrd; lia).
+    all: try (left; reflexivity).
+    all: idtac.
+  - (* chain column blank *)
+    assert (EC : (if cf then a_chain a else "") = "").
+    { destruct cf; [|reflexivity]. simpl in ECH. apply negb_false_iff in ECH.
+      now apply is_empty_true in ECH. }
+    rewrite EC. change (take 1 (ljust 1 "")) with " ".
+    unfold expected_ws. rewrite ECH.
+    eapply from_tokens_nochain; try eassumption.
+    match goal with |- tokens ?l = _ =>
+      assert (E : l = render [Word T; Gap (repeat_char sp (6 - String.length T)); Gap " ";
+                              Gap (repeat_char sp (5 - String.length S)); Word S; Gap " ";
+                              Gap (repeat_char sp kN); Word (a_name a); Gap (repeat_char sp jN); Gap " ";
+                              Gap (repeat_char sp kR); Word (a_res_name a); Gap (repeat_char sp jR); Gap " ";
+                              Gap " "; Gap (repeat_char sp (4 - String.length Q)); Word Q; Gap "    ";
+                              Gap (repeat_char sp (8 - String.length X)); Word X; Gap " ";
+                              Gap (repeat_char sp (8 - String.length Y)); Word Y; Gap " ";
+                              Gap (repeat_char sp (8 - String.length Zc)); Word Zc;
+                              Gap (repeat_char sp (8 - String.length C)); Word C;
+                              Gap (repeat_char sp (7 - String.length Rd)); Word Rd; Gap nl])
+    end.
+    { cbn [render]. rewrite !app_assoc_s, !app_empty_r. reflexivity. }
+    rewrite E, tokens_render; [reflexivity|].
+    cbn [wf gap_next]. rewrite !BW.
+    repeat split; auto using blanks_nonempty.
+    all: try (right; left; reflexivity).
+    all: try (left; apply blanks_nonempty; clear - Hch Hrd; lia).
+    all: try (left; reflexivity).
+Qed.
+
+
+(* ======================================================================== *)
+(* 6. the full statement is refuted: witnesses inside the quantifier        *)
+
+(* FULL STATEMENTS of C08 over the property's quantifier (NOT theorems: each
+   is refuted below by a witness that the harness replays on the real code):
+
+     forall cf a, in_quantifier a = true ->
+       read_fixed (pqr_string cf a) = expected_fixed cf a.
+
+     forall cf a, in_quantifier a = true ->
+       exists p, from_pqr_line (ws_line cf a) = PAtom p /\
+                 p = expected_ws cf a  (* and the insertion code recoverable *).
+
+   What holds is the same conclusion under fixed_ok / ws_ok (sections 4, 5). *)
+
+Definition base_atom : atom :=
+  mkatom "ATOM" 1 "CA" "ALA" "A" 12 "" (mkfx false 1000) (mkfx true 2500) (mkfx false 3125)
+         (Some (mkfx true 5000)) (Some (mkfx false 18000)).
+
+Definition set_res_seq (n : Z) (a : atom) : atom :=
+  mkatom (a_type a) (a_serial a) (a_name a) (a_res_name a) (a_chain a) n (a_ins a)
+         (a_x a) (a_y a) (a_z a) (a_charge a) (a_radius a).
+Definition set_ins (i : string) (a : atom) : atom :=
+  mkatom (a_type a) (a_serial a) (a_name a) (a_res_name a) (a_chain a) (a_res_seq a) i
+         (a_x a) (a_y a) (a_z a) (a_charge a) (a_radius a).
+Definition set_chain (c : string) (a : atom) : atom :=
+  mkatom (a_type a) (a_serial a) (a_name a) (a_res_name a) c (a_res_seq a) (a_ins a)
+         (a_x a) (a_y a) (a_z a) (a_charge a) (a_radius a).
+Definition set_x (v : fx) (a : atom) : atom :=
+  mkatom (a_type a) (a_serial a) (a_name a) (a_res_name a) (a_chain a) (a_res_seq a) (a_ins a)
+         v (a_y a) (a_z a) (a_charge a) (a_radius a).
+Definition set_charge (v : option fx) (a : atom) : atom :=
+  mkatom (a_type a) (a_serial a) (a_name a) (a_res_name a) (a_chain a) (a_res_seq a) (a_ins a)
+         (a_x a) (a_y a) (a_z a) v (a_radius a).
+Definition set_radius (v : option fx) (a : atom) : atom :=
+  mkatom (a_type a) (a_serial a) (a_name a) (a_res_name a) (a_chain a) (a_res_seq a) (a_ins a)
+         (a_x a) (a_y a) (a_z a) (a_charge a) v.
+
+Definition wit_serial : atom := with_serial 100000 base_atom.
+Definition wit_res_seq : atom := set_res_seq 10000 base_atom.
+Definition wit_coord_pos : atom := set_x (mkfx false 10000123) base_atom.   (* 10000.123 *)
+Definition wit_coord_neg : atom := set_x (mkfx true 1000123) base_atom.     (* -1000.123 *)
+Definition wit_chain_resseq : atom := set_res_seq 1000 base_atom.           (* chain A, 1000 *)
+Definition wit_inscode : atom := set_ins "B" base_atom.                      (* 12B *)
+Definition wit_digit_chain : atom := set_chain "1" base_atom.
+Definition wit_charge : atom := set_charge (Some (mkfx true 105000)) base_atom.   (* -10.5 e *)
+Definition wit_radius : atom := set_radius (Some (mkfx false 105000)) base_atom.  (* 10.5 A *)
+
+(* serial >= 100000: the 5 columns keep the leading digits only *)
+Theorem fixed_serial_refuted :
+  exists a, in_quantifier a = true /\ a_serial a = 100000%Z /\
+    pqr_string false a = "ATOM  10000  CA  ALA    12       1.000  -2.500   3.125 -0.5000 1.8000" /\
+    f_serial (read_fixed (pqr_string false a)) = Some 10000%Z.
+Proof. exists wit_serial. vm_compute. repeat split. Qed.
+
+(* resSeq >= 10000 *)
+Theorem fixed_res_seq_refuted :
+  exists a, in_quantifier a = true /\ a_res_seq a = 10000%Z /\
+    f_res_seq (read_fixed (pqr_string false a)) = Some 1000%Z.
+Proof. exists wit_res_seq. vm_compute. repeat split. Qed.
+
+(* a coordinate needing more than 8 columns loses its last decimals *)
+Theorem fixed_coord_refuted :
+  (exists a, in_quantifier a = true /\ a_x a = mkfx false 10000123 /\
+     f_x (read_fixed (pqr_string false a)) = Some (PF false 1000012 2)) /\
+  (exists a, in_quantifier a = true /\ a_x a = mkfx true 1000123 /\
+     f_x (read_fixed (pqr_string false a)) = Some (PF true 100012 2)).
+Proof.
+  split; [exists wit_coord_pos | exists wit_coord_neg]; vm_compute; repeat split.
+Qed.
+
+(* --whitespace --keep-chain: chain id and a 4-character resSeq become one
+   token; the default layout of the same atom is fine; pdb2pqr's reader raises *)
+Theorem ws_chain_res_seq_refuted :
+  exists a, in_quantifier a = true /\ fixed_ok true a = true /\ a_res_seq a = 1000%Z /\
+    tokens (ws_line true a) =
+      ["ATOM"; "1"; "CA"; "ALA"; "A1000"; "1.000"; "-2.500"; "3.125"; "-0.5000"; "1.8000"] /\
+    from_pqr_line (ws_line true a) = PValueError.
+Proof. exists wit_chain_resseq. vm_compute. repeat split. Qed.
+
+(* --whitespace: resSeq and insertion code become one token (any chain flag) *)
+Theorem ws_ins_code_refuted :
+  exists a, in_quantifier a = true /\ fixed_ok true a = true /\ a_ins a = "B" /\
+    tokens (ws_line false a) =
+      ["ATOM"; "1"; "CA"; "ALA"; "12B"; "1.000"; "-2.500"; "3.125"; "-0.5000"; "1.8000"] /\
+    from_pqr_line (ws_line false a) = PValueError /\
+    from_pqr_line (ws_line true a) = PValueError.
+Proof. exists wit_inscode. vm_compute. repeat split. Qed.
+
+(* --whitespace --keep-chain with a digit as chain id: from_pqr_line silently
+   reads the chain as resSeq and shifts every later field by one *)
+Theorem ws_digit_chain_refuted :
+  exists a p, in_quantifier a = true /\ fixed_ok true a = true /\ a_chain a = "1" /\
+    a_res_seq a = 12%Z /\
+    from_pqr_line (ws_line true a) = PAtom p /\
+    p_chain p = None /\ p_res_seq p = 1%Z /\ p_x p = PF false 12 0 /\ p_radius p = PF true 5000 4.
+Proof.
+  exists wit_digit_chain. eexists. vm_compute. repeat split.
+Qed.
+
+(* beyond physical sizes (outside in_quantifier, inside "whatever the magnitude
+   of numbers"): no blank is inserted between z, charge and radius *)
+Theorem ws_charge_radius_fused :
+  (fixed_ok false wit_charge = true /\
+   tokens (ws_line false wit_charge) =
+     ["ATOM"; "1"; "CA"; "ALA"; "12"; "1.000"; "-2.500"; "3.125-10.5000"; "1.8000"] /\
+   from_pqr_line (ws_line false wit_charge) = PValueError) /\
+  (fixed_ok false wit_radius = true /\
+   tokens (ws_line false wit_radius) =
+     ["ATOM"; "1"; "CA"; "ALA"; "12"; "1.000"; "-2.500"; "3.125"; "-0.500010.5000"] /\
+   from_pqr_line (ws_line false wit_radius) = PValueError).
+Proof. vm_compute. repeat split. Qed.
+
+(* non-vacuity of the guards: boundary atoms satisfy them *)
+Definition edge_atom : atom :=
+  mkatom "HETATM" 99999 "HD11" "LIG1" "Z" (-999) "X" (mkfx true 999999) (mkfx false 9999999)
+         (mkfx true 0) (Some (mkfx true 999999)) (Some (mkfx false 999999)).
+Definition edge_atom_ws : atom :=
+  mkatom "HETATM" 99999 "HD11" "LIG1" "Z" (-99) "" (mkfx true 999999) (mkfx false 9999999)
+         (mkfx true 0) (Some (mkfx true 99999)) None.
+
+Lemma guards_nonvacuous :
+  fixed_ok true edge_atom = true /\
+  pqr_string true edge_atom =
+    "HETATM99999 HD11LIG1 Z-999X   -999.9999999.999  -0.000-99.999999.9999" /\
+  read_fixed (pqr_string true edge_atom) = expected_fixed true edge_atom /\
+  ws_ok true edge_atom_ws = true /\ ws_ok false edge_atom_ws = true /\
+  in_quantifier edge_atom_ws = true /\
+  ws_line true edge_atom_ws =
+    "HETATM 99999 HD11 LIG1 Z -99    -999.999 9999.999   -0.000 -9.9999 0.0000" ++ nl /\
+  from_pqr_line (ws_line true edge_atom_ws) = PAtom (expected_ws true edge_atom_ws).
+Proof. vm_compute. repeat split. Qed.
+
+
+(* ======================================================================== *)
+(* 7. printing-side lemmas reused by C09                                    *)
+
+(* --keep-chain changes column 22 (index 21) only; no guard *)
+Theorem chainflag_only_col22 a :
+  exists pre c post,
+    String.length pre = 21 /\ String.length c = 1 /\
+    pqr_string true a = pre ++ c ++ post /\
+    pqr_string false a = pre ++ " " ++ post.
+Proof.
+  exists (take 6 (ljust 6 (a_type a)) ++ take 5 (rjust 5 (Z_to_string (a_serial a))) ++ " "
+          ++ name_field (a_name a) ++ res_field (a_res_name a) ++ " "),
+         (take 1 (ljust 1 (a_chain a))),
+         (take 4 (rjust 4 (Z_to_string (a_res_seq a))) ++ ins_field (a_ins a)
+          ++ coord_field (a_x a) ++ coord_field (a_y a) ++ coord_field (a_z a)
+          ++ charge_field (a_charge a) ++ radius_field (a_radius a)).
+  repeat split.
+  - rewrite !length_app, length_take_ljust, length_take_rjust, length_name_field,
+      length_res_field. reflexivity.
+  - apply length_take_ljust.
+  - unfold pqr_string, common_string. rewrite !app_assoc_s. reflexivity.
+  - unfold pqr_string, common_string. rewrite !app_assoc_s. reflexivity.
+Qed.
+
+(* TER / END lines never reach a --whitespace file *)
+Lemma ws_drops_ter cif :
+  write_line true cif (item_text ItTer) = "" /\ write_line true cif (item_text ItTerEnd) = "".
+Proof. split; reflexivity. Qed.
+
+Fixpoint atom_lines (l : list item) : list string :=
+  match l with
+  | [] => []
+  | ItAtom s :: r => s :: atom_lines r
+  | _ :: r => atom_lines r
+  end.
+
+(* line i renders atom i with serial i+1 *)
+Fixpoint numbered (cf : bool) (i : nat) (l : list atom) : list string :=
+  match l with
+  | [] => []
+  | a :: r => pqr_string cf (with_serial (Z.of_nat i + 1) a) :: numbered cf (S i) r
+  end.
+
+Lemma order_preserved_from cf l : forall i cur,
+  atom_lines (print_items_from cf i cur l) = numbered cf i l.
+Proof.
+  induction l as [|a r IH]; intros i cur; simpl; [reflexivity|].
+  destruct cur as [c|]; [destruct (String.eqb (a_chain a) c)|]; simpl; now rewrite IH.
+Qed.
+
+Theorem order_preserved cf l : atom_lines (print_items cf l) = numbered cf 0 l.
+Proof. apply order_preserved_from. Qed.
+
+Lemma numbered_nth cf l : forall k i,
+  nth_error (numbered cf k l) i =
+  option_map (fun a => pqr_string cf (with_serial (Z.of_nat (k + i) + 1) a)) (nth_error l i).
+Proof.
+  induction l as [|a r IH]; intros k [|i]; simpl; try reflexivity.
+  - now rewrite Nat.add_0_r.
+  - rewrite IH. now replace (S k + i) with (k + S i) by lia.
+Qed.
+
+Theorem serial_is_position cf l i :
+  nth_error (atom_lines (print_items cf l)) i =
+  option_map (fun a => pqr_string cf (with_serial (Z.of_nat i + 1) a)) (nth_error l i).
+Proof. rewrite order_preserved. apply (numbered_nth cf l 0 i). Qed.
+
+Lemma length_numbered cf l : forall k, List.length (numbered cf k l) = List.length l.
+Proof. induction l; intros k; simpl; auto. Qed.
+
+(* the --whitespace file is the re-spaced atom lines, in order *)
+Lemma concat_empty_cons x xs : String.concat "" (x :: xs) = x ++ String.concat "" xs.
+Proof. destruct xs; simpl; [now rewrite app_empty_r | reflexivity]. Qed.
+
+Lemma is_atom_line_pqr cf a tail : type_ok a = true -> is_atom_line (pqr_string cf a ++ tail) = true.
+Proof.
+  intros H. unfold is_atom_line, pqr_string, common_string.
+  destruct (type_ok_cases a H) as [E|E]; rewrite E; reflexivity.
+Qed.
+
+Definition all_types_ok (l : list atom) : Prop := forall a, In a l -> type_ok a = true.
+
+Lemma ws_file_from cf l : all_types_ok l -> forall i cur,
+  String.concat "" (map (write_line true false) (map item_text (print_items_from cf i cur l))) =
+  String.concat "" (map (fun s => respace (s ++ nl)) (numbered cf i l)).
+Proof.
+  induction l as [|a r IH]; intros Hok i cur; [reflexivity|].
+  assert (Ha : type_ok (with_serial (Z.of_nat i + 1) a) = true) by (change (type_ok a = true); apply Hok; now left).
+  assert (Hr : all_types_ok r) by (intros b Hb; apply Hok; now right).
+  assert (W : write_line true false (item_text (ItAtom (pqr_string cf (with_serial (Z.of_nat i + 1) a))))
+              = respace (pqr_string cf (with_serial (Z.of_nat i + 1) a) ++ nl)).
+  { unfold write_line, item_text. now rewrite is_atom_line_pqr. }
+  cbn [print_items_from numbered map].
+  destruct cur as [c|]; [destruct (String.eqb (a_chain a) c)|]; cbn [map];
+    rewrite ?concat_empty_cons, ?W, ?(IH Hr); try reflexivity.
+Qed.
+
+Theorem ws_file_lines cf l : all_types_ok l ->
+  print_pqr true false (print_atoms cf l) =
+  String.concat "" (map (fun s => respace (s ++ nl)) (numbered cf 0 l)).
+Proof.
+  intros H. unfold print_pqr, print_atoms, print_items. rewrite app_empty_r.
+  now apply ws_file_from.
+Qed.
+
+
+Definition num_cols : list (nat * nat) := [(30, 38); (38, 46); (46, 54); (54, 62); (62, 69)].
+
+Definition num_tokens (a : atom) : list string :=
+  [fmt_fixed 3 (a_x a); fmt_fixed 3 (a_y a); fmt_fixed 3 (a_z a);
+   opt_fmt4 (a_charge a); opt_fmt4 (a_radius a)].
+
+Lemma ins_field_split i : exists p, ins_field i = p ++ " ".
+Proof.
+  unfold ins_field. destruct (is_empty i).
+  - now exists "   ".
+  - exists (i ++ "  "). now rewrite app_assoc_s.
+Qed.
+
+(* the five numeric tokens of the re-spaced line are the five numeric column
+   slices of the default line, in order, whatever stands before them *)
+Theorem respace_keeps_numeric_tokens cf a :
+  num_ok a = true ->
+  exists front,
+    tokens (ws_line cf a) = (front ++ num_tokens a)%list /\
+    map (fun c => strip (slice (fst c) (snd c) (pqr_string cf a))) num_cols = num_tokens a.
+Proof.
+  unfold num_ok. rewrite !andb_true_iff.
+  intros [[[[[Hi Hx] Hy] Hz] Hch] Hrd].
+  apply fits_le in Hi, Hch, Hrd.
+  assert (Hch8 : String.length (opt_fmt4 (a_charge a)) <= 8) by (clear - Hch; lia).
+  assert (Hrd7 : String.length (opt_fmt4 (a_radius a)) <= 7) by (clear - Hrd; lia).
+  assert (K1 : 1 <= 8 - String.length (opt_fmt4 (a_charge a))) by (clear - Hch; lia).
+  assert (K2 : 1 <= 7 - String.length (opt_fmt4 (a_radius a))) by (clear - Hrd; lia).
+  destruct (ins_field_split (a_ins a)) as [p Ep].
+  exists (tokens (take 6 (ljust 6 (a_type a)) ++ " "
+                  ++ (take 5 (rjust 5 (Z_to_string (a_serial a))) ++ " " ++ name_field (a_name a))
+                  ++ " " ++ res_field (a_res_name a) ++ " "
+                  ++ take 1 (ljust 1 (if cf then a_chain a else ""))
+                  ++ take 4 (rjust 4 (Z_to_string (a_res_seq a))) ++ p)).
+  split.
+  - rewrite (ws_line_fields cf a Hi), Ep.
+    rewrite (coord_field_fit _ Hx), (coord_field_fit _ Hy), (coord_field_fit _ Hz).
+    unfold charge_field, radius_field.
+    rewrite (rjust_field_pad 8 _ Hch8), (rjust_field_pad 7 _ Hrd7).
+    set (X := fmt_fixed 3 (a_x a)). set (Y := fmt_fixed 3 (a_y a)). set (Zc := fmt_fixed 3 (a_z a)).
+    set (C := opt_fmt4 (a_charge a)) in *. set (Rd := opt_fmt4 (a_radius a)) in *.
+    match goal with |- tokens ?l = (tokens ?A ++ _)%list =>
+      assert (E : l = A ++ String sp
+        (render [Gap (repeat_char sp (8 - String.length X)); Word X; Gap " ";
+                 Gap (repeat_char sp (8 - String.length Y)); Word Y; Gap " ";
+                 Gap (repeat_char sp (8 - String.length Zc)); Word Zc;
+                 Gap (repeat_char sp (8 - String.length C)); Word C;
+                 Gap (repeat_char sp (7 - String.length Rd)); Word Rd; Gap nl]))
+    end.
+    { cbn [render]. rewrite !app_assoc_s, !app_empty_r. reflexivity. }
+    rewrite E, tokens_app_ws by reflexivity. f_equal.
+    rewrite tokens_render; [reflexivity|].
+    cbn [wf gap_next]. rewrite !blanks_ws.
+    unfold X, Y, Zc, C, Rd.
+    repeat split; auto using fmt_fixed_no_ws, fmt_fixed_nonempty, opt_fmt4_no_ws,
+      opt_fmt4_nonempty, blanks_nonempty.
+    all: try (right; left; reflexivity).
+    all: try (left; reflexivity).
+  - rewrite <- (app_empty_r (pqr_string cf a)), pqr_string_laid.
+    destruct (layout_slices _ _ " " _ _ " " _ _ _ _ _ _ _ _ ""
+              (length_take_ljust 6 (a_type a))
+              (length_take_rjust 5 (Z_to_string (a_serial a))) eq_refl
+              (length_name_field (a_name a)) (length_res_field (a_res_name a)) eq_refl
+              (length_take_ljust 1 (if cf then a_chain a else ""))
+              (length_take_rjust 4 (Z_to_string (a_res_seq a)))
+              (length_ins_field (a_ins a) Hi)
+              (length_coord_field (a_x a)) (length_coord_field (a_y a))
+              (length_coord_field (a_z a))
+              (length_charge_field (a_charge a)) (length_radius_field (a_radius a)))
+      as (_ & _ & _ & _ & _ & _ & _ & S9 & S10 & S11 & S12 & S13).
+    unfold num_cols, num_tokens. cbn [map fst snd].
+    rewrite S9, S10, S11, S12, S13.
+    rewrite (coord_field_fit _ Hx), (coord_field_fit _ Hy), (coord_field_fit _ Hz).
+    unfold charge_field, radius_field.
+    rewrite (rjust_field_pad 8 _ Hch8), (rjust_field_pad 7 _ Hrd7).
+    rewrite !strip_rpad by auto using fmt_fixed_no_ws, opt_fmt4_no_ws. reflexivity.
+Qed.
+
+(* file level *)
+
+Fixpoint all_ok (ok : atom -> bool) (i : nat) (l : list atom) : Prop :=
+  match l with
+  | [] => True
+  | a :: r => ok (with_serial (Z.of_nat i + 1) a) = true /\ all_ok ok (S i) r
+  end.
+
+Fixpoint renumbered (i : nat) (l : list atom) : list atom :=
+  match l with
+  | [] => []
+  | a :: r => with_serial (Z.of_nat i + 1) a :: renumbered (S i) r
+  end.
+
+Lemma numbered_renumbered cf l : forall i, numbered cf i l = map (pqr_string cf) (renumbered i l).
+Proof. induction l as [|a r IH]; intros i; simpl; [reflexivity | now rewrite IH]. Qed.
+
+(* default layout, whole atom list: every line reads back to its atom, in
+   order, with serial = position *)
+Theorem fixed_file_roundtrip cf l :
+  all_ok (fixed_ok cf) 0 l ->
+  map read_fixed (atom_lines (print_items cf l)) = map (expected_fixed cf) (renumbered 0 l).
+Proof.
+  rewrite order_preserved. generalize 0. induction l as [|a r IH]; intros i H; [reflexivity|].
+  destruct H as [Ha Hr]. cbn [numbered renumbered map].
+  rewrite (fixed_roundtrip _ _ Ha), (IH _ Hr). reflexivity.
+Qed.
+
+Lemma write_line_default s : write_line false false s = s.
+Proof. unfold write_line. now rewrite orb_true_r. Qed.
+
+Lemma respace_nonempty s : is_empty (respace s) = false.
+Proof. unfold respace. destruct (slice 0 6 s); reflexivity. Qed.
+
+Lemma ws_chunks_from cf l : all_types_ok l -> forall i cur,
+  file_chunks true false (map item_text (print_items_from cf i cur l)) =
+  map (fun s => respace (s ++ nl)) (numbered cf i l).
+Proof.
+  unfold file_chunks.
+  induction l as [|a r IH]; intros Hok i cur; [reflexivity|].
+  assert (Ha : type_ok (with_serial (Z.of_nat i + 1) a) = true)
+    by (change (type_ok a = true); apply Hok; now left).
+  assert (Hr : all_types_ok r) by (intros b Hb; apply Hok; now right).
+  assert (W : write_line true false (item_text (ItAtom (pqr_string cf (with_serial (Z.of_nat i + 1) a))))
+              = respace (pqr_string cf (with_serial (Z.of_nat i + 1) a) ++ nl)).
+  { unfold write_line, item_text. now rewrite is_atom_line_pqr. }
+  cbn [print_items_from numbered map].
+  destruct cur as [c|]; [destruct (String.eqb (a_chain a) c)|]; cbn [map filter];
+    rewrite ?W, ?respace_nonempty; cbn [negb]; rewrite ?(IH Hr); reflexivity.
+Qed.
+
+Lemma all_ok_types cf l : forall i, all_ok (ws_ok cf) i l -> all_types_ok l.
+Proof.
+  induction l as [|a r IH]; intros i H b Hb; [destruct Hb|].
+  destruct H as [Ha Hr]. destruct Hb as [<- | Hb]; [|exact (IH _ Hr b Hb)].
+  unfold ws_ok in Ha. rewrite !andb_true_iff in Ha. tauto.
+Qed.
+
+(* --whitespace file, whole atom list: pdb2pqr's own reader returns every atom,
+   in order, with serial = position *)
+Theorem ws_file_roundtrip cf l :
+  all_ok (ws_ok cf) 0 l ->
+  read_pqr (file_chunks true false (print_atoms cf l)) =
+  inl (map (expected_ws cf) (renumbered 0 l)).
+Proof.
+  intros H. unfold print_atoms, print_items.
+  rewrite (ws_chunks_from cf l (all_ok_types cf l 0 H)).
+  revert H. generalize 0. induction l as [|a r IH]; intros i H; [reflexivity|].
+  destruct H as [Ha Hr]. cbn [numbered renumbered map read_pqr].
+  fold (ws_line cf (with_serial (Z.of_nat i + 1) a)).
+  rewrite (ws_roundtrip _ _ Ha), (IH _ Hr). reflexivity.
 Qed.
